@@ -345,6 +345,8 @@ def run(ctx, res):
     from . import closures
     res.floor("C07.R9", 1)
     closures.check(ctx, res, "C07.R9", ('mtbl_fileset_options',))
+    # ---- what this property rests on (re-run here, labelled C07.D.<rule>) ---------------------------------------------
+    depends(ctx, res, 'C18', ('C18.R7',), 'a file dropped from the setfile leaves the view only if the reload unloads it: an entry must not stay marked as carried over')
 
 _COARSE = {}
 
